@@ -189,7 +189,10 @@ def run(chk):
                         replay=lambda m, fn=fn: {"script": REPLAY_GATE, "input": {"fn": fn, "g0": model_val(m, g0)}})
         chk.record(f"{fn}:both-outcomes-reachable", {p.kind for p in paths} == {"raise", "return"},
                    f"outcomes={sorted({p.kind for p in paths})}", func=f"{MOD}:{fn}", kind="reachability")
-    chk.notes.append(f"diagnostic class raised by each gate: {diag} (capturing closures raise UnsupportedError wrapped in GuppyError; read as an error caused by the gate)")
+    # "rejected with an experimental-feature error": the diagnostic of a closed gate is the one that tells the user about
+    # enable_experimental_features(), not a plain 'unsupported'
+    for fn in ("check_function_tensors_enabled", "check_lists_enabled", "check_capturing_closures_enabled", "check_modifiers_enabled"):
+        chk.record(f"{fn}:the-diagnostic-of-a-closed-gate-is-an-ExperimentalFeatureError", diag.get(fn) == "ExperimentalFeatureError", f"raises {diag.get(fn)}", func=f"{MOD}:{fn}", backend="structural")
 
     # ---- call sites: the gate call dominates the feature handling code
     for (mod, qual, gate, marker) in CALL_SITES:
